@@ -78,6 +78,7 @@ fn main() {
                 "c10rerun" => ops_tiling::rerun(&pool, &mut w),
                 "c20" => ops_determinism::record(&pool, &mut w, seed, n),
                 "c09" => ops_simplify::record(&mut w, seed, n),
+                "c09steps" => ops_simplify::record_steps(&mut w, seed, n),
                 "c08" => ops_hull::record(&mut w, seed, n),
                 "c04rerun" => ops_boolops::rerun(&pool, &mut w),
                 k => { eprintln!("unknown record kind {k}"); std::process::exit(2); }
